@@ -240,6 +240,9 @@ func (r *rig) judge() *gx.Outcome {
 				if wk := p.KeyOf(n); !bytes.Equal(x.Key, wk) || (len(wk) > 0) != (len(x.Key) > 0) {
 					out.Violate("C04", "altered-on-wire key", "m%d carried key %q, submitted %q (codec %v, %s)", n, x.Key, wk, p.Codec, p.Version)
 				}
+				if (p.Tomb == n+1 || p.EmptyVal == n+1) && (x.Value == nil) != (p.Tomb == n+1) {
+					out.Violate("C04", "altered-on-wire value null-vs-empty", "m%d was submitted with a nil value: %v, the request carried a null value: %v (codec %v, %s)", n, p.Tomb == n+1, x.Value == nil, p.Codec, p.Version)
+				}
 				if wt := p.TimestampOf(n); !wt.IsZero() && p.Version.IsAtLeast(sarama.V0_10_0_0) && !x.Timestamp.Equal(wt) {
 					out.Violate("C04", "altered-on-wire timestamp", "m%d carried timestamp %s, submitted %s (codec %v, %s)", n, x.Timestamp.UTC().Format(time.RFC3339), wt.Format(time.RFC3339), p.Codec, p.Version)
 				}
